@@ -218,7 +218,7 @@ func vwExchange(addr string, raw []byte, halfClose bool) (status int, err error)
 
 func TestVerifWireAPI(t *testing.T) {
 	r := vwNewRunner(t)
-	dir, err := os.MkdirTemp("", "verif_c11_")
+	dir, err := os.MkdirTemp(os.Getenv("VERIF_TMP"), "verif_c11_")
 	if err != nil {
 		t.Fatal(err)
 	}
